@@ -83,7 +83,9 @@ func writeJSON(path string, data interface{}, humanFriendly bool) (err error) {
 	if err = os.WriteFile(path+LockExt, jsonBytes, 0644); err != nil {
 		return
 	}
+	VerifPoint("fileutil.writejson.tmp", path)
 	err = os.Rename(path+LockExt, path)
+	VerifPoint("fileutil.writejson.done", path)
 	return
 }
 
@@ -200,13 +202,17 @@ func Move(src, dst string) error {
 		if err = Copy(src, dst+LockExt); err != nil {
 			return err
 		}
+		VerifPoint("fileutil.move.copied", dst)
 		if err = os.Remove(src); err != nil {
 			return err
 		}
+		VerifPoint("fileutil.move.srcgone", dst)
 	}
+	VerifPoint("fileutil.move.lck", dst)
 	if err = os.Rename(dst+LockExt, dst); err != nil {
 		return err
 	}
+	VerifPoint("fileutil.move.done", dst)
 	return nil
 }
 
